@@ -123,6 +123,7 @@ type runOut struct {
 	StuckArmed   bool
 	StuckQueue   int
 	StuckStacks  string
+	StuckBusy    bool // a library goroutine was still computing when the extended watchdog gave up
 	FiredWall    time.Time
 	ReturnWall   time.Time
 }
@@ -480,7 +481,7 @@ func runScenarioWith(sc scn, seed int64, f *fault, readTimeout time.Duration, ba
 	if sc.ExtraHeaders > 0 {
 		wd = 3 * time.Second // this server never ends the query: only a cancellation does
 	}
-	out.Returned = runWithWatchdog(wd, func() {
+	out.Returned = runWithStuckWatchdog(wd, func() {
 		out.Err = client.Do(ctx, q)
 	})
 	out.ReturnWall = time.Now()
@@ -494,6 +495,7 @@ func runScenarioWith(sc scn, seed int64, f *fault, readTimeout time.Duration, ba
 		out.StuckReaders, out.StuckArmed = sim.Conn.BlockedReaders()
 		out.StuckQueue = sim.Conn.QueueLen()
 		out.StuckStacks = strings.Join(libraryGoroutines(), "\n---\n")
+		out.StuckBusy = libraryBusy()
 	}
 	if out.Returned {
 		foreign.Wait()
